@@ -1,5 +1,6 @@
 //! Runs a command script against the real library (/repo's working tree).
 //! stdin: one s-expression per line; stdout: one observation per line.
+use msi_verif_harness::codepage::codepage_cmd;
 use msi_verif_harness::column::column_cmd;
 use msi_verif_harness::expr::expr_cmd;
 use msi_verif_harness::pure::pure_cmd;
@@ -19,6 +20,9 @@ fn dispatch(st: &mut State, cmd: &Sx) -> Sx {
         return o;
     }
     if let Some(o) = column_cmd(&name, args) {
+        return o;
+    }
+    if let Some(o) = codepage_cmd(&name, args) {
         return o;
     }
     let _ = st;
